@@ -26,7 +26,7 @@ from bind import _pytree as pt
 PROP = "C19"
 
 INVARIANTS = ["TypeOK", "MatchesDerived", "InstanceExists", "SubstMatches", "MatcherAgrees",
-              "IdentityGoal", "RewriteLocal", "MechAgrees"]
+              "IdentityGoal", "RewriteLocal", "MechAgrees", "RewriteIsASelection"]
 
 
 BASE = {
@@ -61,6 +61,9 @@ VARIANTS = {
         # lambda *a / lambda **a; two statements, so that the complementary form is around
         ("optional", {"Names": {"a"}, "Nums": set(), "Kinds": {"Slice", "LambdaStar"}, "MaxStmts": 2, "MaxModSize": 14,
                       "MaxWild": 1, "StmtKindsOn": {"Expr"}, "FocusKinds": {"expr"}}, None),
+        # runs of up to four statements in which sliding windows of a two-statement pattern overlap
+        ("runs", {"Names": {"a"}, "Kinds": set(), "MaxExprSize": 1, "MaxStmts": 4, "MaxModSize": 20, "MaxWild": 1,
+                  "FocusKinds": {"stmts"}, "StmtKindsOn": {"Assign"}}, None),
         # redundant parentheses and line breaks around the instance / the bound code
         ("deco", {"Kinds": {"BinOp", "Call"}, "MaxWild": 1, "DecoKinds": ALL_DECO}, None),
     ],
@@ -77,6 +80,8 @@ VARIANTS = {
         ("deco", {"Kinds": {"BinOp", "Call", "UnaryOp", "Attribute"}, "MaxWild": 2, "DecoKinds": ALL_DECO}, None),
         ("optional", {"Names": {"a"}, "Kinds": {"Slice", "LambdaStar"}, "MaxStmts": 2, "MaxModSize": 14,
                       "MaxWild": 1, "StmtKindsOn": {"Expr"}, "FocusKinds": {"expr"}}, None),
+        ("runs", {"Names": {"a"}, "Kinds": set(), "MaxExprSize": 1, "MaxStmts": 4, "MaxModSize": 20, "MaxWild": 2,
+                  "FocusKinds": {"stmts"}, "StmtKindsOn": {"Assign", "Expr"}}, None),
     ] + [("sim%d" % k, SIM, 4000) for k in range(6)],
 }
 
@@ -408,8 +413,11 @@ def _run_behaviour(beh):
             if beh["ambiguous"]:
                 stats["ambiguous_agree" if ok else "ambiguous_differ"] = \
                     stats.get("ambiguous_agree" if ok else "ambiguous_differ", 0) + 1
-            if not ok and beh["ambiguous"] and rtree is not None:
-                stats["unjudged"] += 1     # overlapping instances: no order is prescribed
+            if not ok and beh["ambiguous"] and beh["stmtpat"] and rtree is not None and rtree in g["alts"]:
+                stats["ambiguous_other_selection"] = stats.get("ambiguous_other_selection", 0) + 1
+                continue                   # another maximal set of disjoint instances was replaced
+            if not ok and beh["ambiguous"] and not beh["stmtpat"] and rtree is not None:
+                stats["unjudged"] += 1     # overlapping expression instances: no order is prescribed
                 continue
             if ok:
                 if g["id"] == "same" and norm_dump(result) != src_dump:
